@@ -354,7 +354,8 @@ def _stored(sv):
 
 
 def _same_dct(w, a, b):
-    return set(a) == set(b) and w.And(*[w.eq(a[k], b[k]) for k in a])
+    if set(a) != set(b): return w.And(False)
+    return w.And(*[w.eq(a[k], b[k]) for k in a])
 
 
 def _mixing_term(w, vals, stored):
@@ -419,7 +420,7 @@ def mixture_models(w, cfg):
     w.ensure('pure stream: S = n s (no mixing term)',
              w.And(*[w.eq(Smodel(phase, SparseVector.from_dict({k: vals[k]}, n), T, P), vals[k] * s[k]) for k in sorted(stored)]))
     # frame
-    w.ensure('frame: mol unchanged', _same_dct(w, stored, mol.dct) and mol.size == n)
+    w.ensure('frame: mol unchanged', w.And(_same_dct(w, stored, mol.dct), mol.size == n))
     w.ensure('frame: models unchanged', all(a is b for a, b in zip(Hmodel.models, hm)) and len(Hmodel.models) == n
              and all(a is b for a, b in zip(Smodel.models, sm)) and all(a is b for a, b in zip(Cmodel.models, cm)))
     w.canary('canary: H_mix = sum n_k h_k + 1', w.eq(H, w.total([vals[k] * h[k] for k in range(n)]) + 1.))
